@@ -1,1 +1,3 @@
-// harness stub: nothing here yet
+// Correspondence harness for daemon/src/event/mod.rs.
+// Included as the body of `event::verif_hx` under cfg(all(test, osrg_rustybgp_verif)).
+mod gr_glue { include!(concat!(env!("VERIF_HX_DIR"), "/daemon/event_gr_hx.rs")); }
